@@ -34,7 +34,7 @@ def col_fmt(case, c):
         s += "/" + c["mod"]
     if c.get("brk"):
         s += "!"
-    if case["kind"] == "dict":
+    if case["kind"] == "dict" and not case.get("no_value_path"):
         s += "<-[%s]" % name
     if c.get("hidden"):
         s += ":-1"
@@ -375,6 +375,70 @@ def st_enum(draw):
 
 
 @st.composite
+def st_cols(draw, field_idxs, fields, enums, allow_hidden):
+    ncol = draw(st.integers(1, 6))
+    cols = []
+    for _ in range(ncol):
+        fi = draw(st.sampled_from(field_idxs))
+        wkind = draw(st.sampled_from(["none", "none", "fixed", "range", "range", "zero", "tiny"]))
+        mn = mx = None
+        if wkind == "fixed":
+            mn = mx = draw(st.integers(0, 15))
+        elif wkind == "range":
+            mn = draw(st.integers(0, 10))
+            mx = mn + draw(st.integers(0, 12))
+        elif wkind == "zero":
+            mn = mx = 0
+        elif wkind == "tiny":
+            mn = draw(st.integers(0, 2))
+            mx = draw(st.integers(mn, 3))
+        mod = None
+        if fields[fi] in enums:
+            mod = draw(st.sampled_from([None, "val", "name", "full"]))
+        cols.append({"f": fi, "min": mn, "max": mx, "brk": draw(st.integers(0, 4)) == 0, "mod": mod,
+                     "hidden": allow_hidden and draw(st.integers(0, 9)) == 0})
+    if all(c["hidden"] for c in cols):
+        cols[0]["hidden"] = False
+    return cols
+
+
+@st.composite
+def st_reformat_case(draw):
+    """a table, printed, then re-formatted (fmt setter and / or remove_columns), then printed again"""
+    a = draw(st_table_case(max_records=12))
+    nf = len(a["fields"])
+    steps = []
+    cur_cols = [dict(c) for c in visible_cols(a)]
+    cur_limits = a["limits"]
+    for _ in range(draw(st.integers(1, 3))):
+        kind = draw(st.sampled_from(["fmt", "fmt", "remove", "print"]))
+        if kind == "fmt":
+            if a["kind"] == "tuple_nofields":
+                new_cols = None
+            else:
+                idxs = sorted({c["f"] for c in a["cols"]}) if a["kind"] == "dict" else list(range(nf))
+                new_cols = draw(st.none() | st_cols(idxs, a["fields"], a["enums"], False))
+            new_limits = draw(st.none() | st.tuples(st.integers(0, 6), st.integers(0, 6)).map(list))
+            if new_cols is None and new_limits is None:
+                new_limits = [draw(st.integers(0, 3)), draw(st.integers(0, 3))]
+            steps.append(["fmt", new_cols, new_limits])
+            if new_cols is not None:
+                cur_cols = [dict(c) for c in new_cols]
+            if new_limits is not None:
+                cur_limits = new_limits
+        elif kind == "remove":
+            names = sorted({a["fields"][c["f"]] for c in cur_cols})
+            if len(names) > 1:
+                rm = draw(st.lists(st.sampled_from(names), min_size=1, max_size=len(names) - 1, unique=True))
+                steps.append(["remove", rm])
+                cur_cols = [c for c in cur_cols if a["fields"][c["f"]] not in rm]
+        else:
+            steps.append(["print", draw(st.booleans())])
+    return {"a": a, "steps": steps, "first_colored": draw(st.booleans()),
+            "final": {"cols": cur_cols, "limits": cur_limits}}
+
+
+@st.composite
 def st_table_case(draw, max_records=40, allow_dict=True, allow_enum=True, allow_hidden=True):
     nf = draw(st.integers(1, 5))
     fields = ["f%d" % i for i in range(nf)]
@@ -411,29 +475,7 @@ def st_table_case(draw, max_records=40, allow_dict=True, allow_enum=True, allow_
     need_cols = kind == "dict" or (kind != "tuple_nofields" and draw(st.integers(0, 3)) > 0)
     cols = None
     if need_cols:
-        ncol = draw(st.integers(1, 6))
-        cols = []
-        for _ in range(ncol):
-            fi = draw(st.integers(0, nf - 1))
-            wkind = draw(st.sampled_from(["none", "none", "fixed", "range", "range", "zero", "tiny"]))
-            mn = mx = None
-            if wkind == "fixed":
-                mn = mx = draw(st.integers(0, 15))
-            elif wkind == "range":
-                mn = draw(st.integers(0, 10))
-                mx = mn + draw(st.integers(0, 12))
-            elif wkind == "zero":
-                mn = mx = 0
-            elif wkind == "tiny":
-                mn = draw(st.integers(0, 2))
-                mx = draw(st.integers(mn, 3))
-            mod = None
-            if fields[fi] in enums:
-                mod = draw(st.sampled_from([None, "val", "name", "full"]))
-            cols.append({"f": fi, "min": mn, "max": mx, "brk": draw(st.integers(0, 4)) == 0, "mod": mod,
-                         "hidden": allow_hidden and draw(st.integers(0, 9)) == 0})
-        if all(c["hidden"] for c in cols):
-            cols[0]["hidden"] = False
+        cols = draw(st_cols(list(range(nf)), fields, enums, allow_hidden))
     titles = {}
     if kind != "tuple_nofields":
         for fn in fields:
